@@ -158,13 +158,19 @@ class IntersectionBoundaryDomain(BoundaryDomain):
         points_b = self.domain.domain_b.boundary.sample_random_uniform(
             d=d, params=params, device=device
         )
-        points_b = self._delete_outer_points(points_b, self.domain.domain_a, params)
+        points_b = self._delete_outer_points(
+            points_b, self.domain.domain_a, params, keep_boundary=False
+        )
         return points_a | points_b
 
-    def _delete_outer_points(self, points, domain, params):
+    def _delete_outer_points(self, points, domain, params, keep_boundary=True):
         n = len(points)
         _, repeated_params = self._repeat_params(n, params)
         inside = domain._contains(points, repeated_params)
+        if not keep_boundary:
+            # where both boundaries coincide, the points of the other domain are kept
+            on_bound = domain.boundary._contains(points, repeated_params)
+            inside = torch.logical_and(inside, torch.logical_not(on_bound))
         index = torch.where(inside)[0]
         return points[index,]
 
@@ -188,7 +194,9 @@ class IntersectionBoundaryDomain(BoundaryDomain):
         points_b = self.domain.domain_b.boundary.sample_grid(
             d=d, params=params, device=device
         )
-        points_b = self._delete_outer_points(points_b, self.domain.domain_a, params)
+        points_b = self._delete_outer_points(
+            points_b, self.domain.domain_a, params, keep_boundary=False
+        )
         return points_a | points_b
 
     def normal(self, points, params=Points.empty(), device="cpu"):
